@@ -92,6 +92,17 @@ class ReflectV:
         self.val = val
 
 
+class LazyArr:
+    """backing array of symbolic size: zero everywhere except the recorded writes (idx, value), newest last"""
+    __slots__ = ('writes',)
+
+    def __init__(self, writes=()):
+        self.writes = writes
+
+    def __len__(self):
+        raise Unsupported('iteration over an array of symbolic size')
+
+
 class Builtin:
     __slots__ = ('name',)
 
@@ -477,6 +488,7 @@ class Engine:
         self.deadline = None
         self.abstract_fp = bool(self.opts.get('abstract_fp'))
         self.keep = []   # keeps ranged symbols alive so their ast ids stay unique
+        RANGES.clear()   # ast ids are only unique while the terms are alive: never carry ranges across engines
         self._ufs = {}
 
     # ---- FP abstraction (CEGAR): UF first, exact definition on demand -------
@@ -521,10 +533,10 @@ class Engine:
         if k == 'slice':
             return SliceV(None, (), 0, 0, 0)
         if k == 'struct':
-            return tuple(self.zero(f['t']) for f in t['fields'])
+            return tuple(self.zero(f['t']) for f in t.get('fields', []))
         if k == 'array':
             z = self.zero(t['elem'])
-            return tuple(z for _ in range(t['len']))
+            return tuple(z for _ in range(t.get('len', 0)))
         if k in ('iface', 'sig', 'map', 'chan', 'nil'):
             return None
         if k == 'tuple':
@@ -579,7 +591,7 @@ class Engine:
 
     def root_type(self, oid):
         m = self.objmeta[oid]
-        if m['kind'] in ('make', 'append'):
+        if m['kind'] in ('make', 'append', 'lazy'):
             return ('arr', m['elem'])
         return m['elem']
 
@@ -598,6 +610,14 @@ class Engine:
     def _get(self, v, path, td):
         for i, p in enumerate(path):
             ct = self.child_type(td, p)
+            if isinstance(v, LazyArr):
+                if path[i + 1:]:
+                    raise Unsupported('nested access into lazy array')
+                r = self.zero(ct)
+                for (q, val) in v.writes:
+                    same = (p == q) if not (is_sym(p) or is_sym(q)) else simp_bool(bv(p, 64) == bv(q, 64))
+                    r = self.merge(same, val, r, ct)
+                return r
             if isinstance(p, int):
                 if p < 0 or p >= len(v):
                     raise Unsupported('internal: heap index %d outside object of %d cells' % (p, len(v)))
@@ -625,6 +645,10 @@ class Engine:
             return self.merge(guard, new, v, td)
         p = path[0]
         ct = self.child_type(td, p)
+        if isinstance(v, LazyArr):
+            if len(path) > 1 or guard is not True:
+                raise Unsupported('nested/guarded store into lazy array')
+            return LazyArr(v.writes + ((p, new),))
         if isinstance(p, int):
             if p < 0 or p >= len(v):
                 raise Unsupported('internal: heap index %d outside object of %d cells' % (p, len(v)))
@@ -1073,6 +1097,12 @@ class Engine:
                     except PathEnd as e:
                         self.end_path(s, e.args[0])
                     continue
+                if self.opts.get('lazy_make'):
+                    oid = self.new_obj(s, LazyArr(), 'lazy', ins.get('pos'), el)
+                    self.count_alloc(s, 'MakeSlice', ins)
+                    s.frames[-1].regs[ins['reg']] = SliceV(oid, (), 0, ln, cp)
+                    conts.append(s)
+                    continue
                 for cv, s2 in self.concretize(s, cp, 64, True, what='make cap'):
                     for lv, s3 in self.concretize(s2, ln, 64, True, what='make len'):
                         self._makeslice(s3, ins, el, lv, cv, lim)
@@ -1115,7 +1145,7 @@ class Engine:
                 self.do_panic(st, 'runtime error: index out of range')
             fr.regs[ins['reg']] = Ptr(x.obj, x.path + (pos,))
         elif xt['k'] == 'ptr':
-            n = self.ut(xt['elem'])['len']
+            n = self.ut(xt['elem']).get('len', 0)
             ok = self.in_bounds(idx, n)
             self.guard_panic(st, ok, 'runtime error: index out of range')
             fr = st.frames[-1]
@@ -1130,7 +1160,7 @@ class Engine:
         if xt['k'] != 'array':
             raise Unsupported('Index on ' + xt['k'])
         idx = simp_int(idx, 64, True)
-        ok = self.in_bounds(idx, xt['len'])
+        ok = self.in_bounds(idx, xt.get('len', 0))
         self.guard_panic(st, ok, 'runtime error: index out of range')
         st.frames[-1].regs[ins['reg']] = self._get(x, (idx,), ins['xt'])
 
@@ -1204,7 +1234,7 @@ class Engine:
         if xt['k'] == 'slice':
             base_obj, base_path, off, ln, cp = x.obj, x.path, x.off, x.len, x.cap
         elif xt['k'] == 'ptr':
-            n = self.ut(xt['elem'])['len']
+            n = self.ut(xt['elem']).get('len', 0)
             if x.obj is None:
                 self.do_panic(st, 'nil array pointer')
             base_obj, base_path, off, ln, cp = x.obj, x.path, 0, n, n
@@ -1674,6 +1704,8 @@ class Engine:
                         self.worklist.append(s2)
         elif name in ('print', 'println'):
             pass
+        elif name in ('Sizeof', 'Alignof'):
+            fr.regs[reg] = self.elem_size(ins['argts'][0])
         elif name == 'recover':
             raise Unsupported('recover')
         else:
@@ -1747,7 +1779,7 @@ class Engine:
         if k == 'struct':
             return max(1, sum(self.elem_size(f['t']) for f in t['fields']))  # approximation (no padding)
         if k == 'array':
-            return t['len'] * self.elem_size(t['elem'])
+            return t.get('len', 0) * self.elem_size(t['elem'])
         raise Unsupported('size of ' + k)
 
     def builtin_copy(self, st, fr, args, ins):
